@@ -348,6 +348,25 @@ def make_groups(tier, seed):
                 'R': {'cols': ['id', 's'], 'rows': rrows, 'index': None, 'strcols': ['s']}}
         groups.append({'case': case, 't2': [7, 10], 'first_stage': 'SIZE', 'validate': True,
                        'src': 'longright:%s:%d' % (api, nrows)})
+    # the same for the overlap coefficient (not rounded): overlap k of a smaller set of n tokens with k / n = p / 100
+    # exactly - a product threshold * n computed in floating point lands just above k for some of them (0.28 * 25)
+    for p in range(1, 101):
+        for n in range(1, nmax + 1):
+            if (p * n) % 100 or not 1 <= p * n // 100 <= n:
+                continue
+            k = p * n // 100
+            shared = ['z%03d' % j for j in range(k)]
+            small = ' '.join(shared + ['a%03d' % j for j in range(n - k)])
+            large = ' '.join(['b%03d' % j for j in range(n - k + 2)] + shared)
+            lrows, rrows = ([[1, small]], [[11, large]]) if gi % 2 else ([[1, large]], [[11, small]])
+            case = {'kind': 'join', 'api': 'overlap_coefficient_join', 'meas': 'OVERLAP_COEFFICIENT', 'filt': 'NONE',
+                    'tok': {'kind': 'ws', 'rs': 1}, 't': [p, 100], 'op': '>=', 'ae': 1, 'am': 0, 'sc': 1, 'lout': None,
+                    'rout': None, 'n_jobs': 1,
+                    'L': {'cols': ['id', 's'], 'rows': lrows, 'index': None, 'strcols': ['s']},
+                    'R': {'cols': ['id', 's'], 'rows': rrows, 'index': None, 'strcols': ['s']}}
+            groups.append({'case': case, 't2': [min(100, p + 1), 100], 'first_stage': 'OVERLAP', 'validate': True,
+                           'src': 'tie:OVERLAP_COEFFICIENT:%d/100:n=%d' % (p, n)})
+            gi += 1
     # bundled data
     ssj = lib.load()
     A, B = ssj.load_person_dataset()
